@@ -18,6 +18,7 @@ const inf = int64(math.MaxInt64 / 4)
 // proverAssume supplies the position-independent assumptions of the running BOUNDS scope (validated
 // receivers, data invariants) so that side conditions proved at a definition point can use them.
 var proverAssume func(fn *ssa.Function) []Atom
+var inProverAssume bool
 
 // Ineq is  Σ pos − Σ neg + K ≥ 0.
 type Ineq struct {
@@ -30,6 +31,7 @@ type prover struct {
 	at    ssa.Instruction
 	depth int
 	trace []string
+	busy  map[string]bool
 }
 
 // soundLin linearises t, treating unsigned arithmetic as exact only when the needed side condition
@@ -52,6 +54,10 @@ func (pr *prover) soundLin(t *Term, facts []Atom) *Lin {
 			l.C = n
 			return l
 		}
+		// len(make([]T, n)) == n
+		if ms, ok := t.Sub[0].Val.(*ssa.MakeSlice); ok && t.K == TLen && t.Sub[0].K == TNew {
+			return pr.soundLin(pr.fi.T(ms.Len), facts)
+		}
 		// len(arr[:]) of a full slice of an array (variadic argument lists, slice literals)
 		if sl := t.Sub[0]; sl.K == TSlice && sl.Sub[1] == nil && sl.Sub[2] == nil && sl.Sub[3] == nil {
 			if n, ok := arrayLen(sl.Sub[0].Typ); ok {
@@ -62,13 +68,32 @@ func (pr *prover) soundLin(t *Term, facts []Atom) *Lin {
 	case TConv:
 		// conversions that cannot change the value were removed by the term builder; the remaining
 		// ones (narrowing, sign change) are exact only with a proven range
-		if pr.convSafe(t, facts) {
-			return pr.soundLin(t.Sub[0], facts)
+		if pr.busy == nil {
+			pr.busy = map[string]bool{}
+		}
+		if !pr.busy[t.s] && len(pr.busy) <= 12 {
+			pr.busy[t.s] = true
+			safe := pr.convSafe(t, facts)
+			delete(pr.busy, t.s)
+			if safe {
+				return pr.soundLin(t.Sub[0], facts)
+			}
 		}
 	case TBin:
 		_, unsigned, isI := isInt(typeOf(t))
 		if !isI {
 			break
+		}
+		if unsigned {
+			// side conditions are proved recursively; a term whose side condition is being proved is opaque
+			if pr.busy == nil {
+				pr.busy = map[string]bool{}
+			}
+			if pr.busy[t.s] || len(pr.busy) > 12 {
+				break
+			}
+			pr.busy[t.s] = true
+			defer delete(pr.busy, t.s)
 		}
 		switch t.Name {
 		case "+":
@@ -143,8 +168,11 @@ func arrayLen(t types.Type) (int64, bool) {
 func (pr *prover) defFacts(t *Term, facts []Atom) []Atom {
 	if in, ok := t.Val.(ssa.Instruction); ok && in.Parent() == pr.fi.Fn && in.Block() != nil {
 		df := pr.fi.FactsWithImports(in)
-		if proverAssume != nil {
-			df = append(append([]Atom{}, df...), proverAssume(pr.fi.Fn)...)
+		if proverAssume != nil && !inProverAssume {
+			inProverAssume = true
+			extra := proverAssume(pr.fi.Fn)
+			inProverAssume = false
+			df = append(append([]Atom{}, df...), extra...)
 		}
 		return df
 	}
@@ -569,9 +597,22 @@ func (pr *prover) upperLowerOf(l *Lin, facts []Atom) (int64, bool) {
 	return total, true
 }
 
+// residual: a sub-goal left unproved after case splitting, with the facts under which it is needed.
+type residual struct {
+	a, b   *Term
+	strict bool
+	assume []Atom
+}
+
 // ProveLE proves a <= b (or a < b when strict) at instruction `at` of fi with the given facts,
 // splitting merge-phis in the goal per incoming edge when the direct proof fails.
 func (p *Prog) ProveLE(fi *FnInfo, at ssa.Instruction, facts []Atom, a, b *Term, strict bool, depth int) bool {
+	ok, _ := p.ProveLERes(fi, at, facts, a, b, strict, depth)
+	return ok
+}
+
+// ProveLERes additionally returns the unproved sub-goals (for lifting to callers).
+func (p *Prog) ProveLERes(fi *FnInfo, at ssa.Instruction, facts []Atom, a, b *Term, strict bool, depth int) (bool, []residual) {
 	pr := &prover{p: p, fi: fi, at: at}
 	facts = p.evalConstCalls(fi, facts)
 	goal := newLin()
@@ -581,10 +622,11 @@ func (p *Prog) ProveLE(fi *FnInfo, at ssa.Instruction, facts []Atom, a, b *Term,
 		goal.C--
 	}
 	if pr.holds(goal, facts) {
-		return true
+		return true, nil
 	}
+	self := []residual{{a, b, strict, facts}}
 	if depth >= 3 {
-		return false
+		return false, self
 	}
 	// phi splitting
 	var phiT *Term
@@ -598,9 +640,11 @@ func (p *Prog) ProveLE(fi *FnInfo, at ssa.Instruction, facts []Atom, a, b *Term,
 		})
 	}
 	if phiT == nil {
-		return false
+		return false, self
 	}
 	phi := phiT.Val.(*ssa.Phi)
+	var res []residual
+	all := true
 	for i, e := range phi.Edges {
 		pred := phi.Block().Preds[i]
 		ef := append([]Atom{}, fi.blockFacts(pred)...)
@@ -620,11 +664,13 @@ func (p *Prog) ProveLE(fi *FnInfo, at ssa.Instruction, facts []Atom, a, b *Term,
 				ef = append(ef, mkAtom(f.Op, replaceTerm(f.L, phiT, et), replaceTerm(f.R, phiT, et)))
 			}
 		}
-		if !p.ProveLE(fi, at, ef, a2, b2, strict, depth+1) {
-			return false
+		ok, r := p.ProveLERes(fi, at, ef, a2, b2, strict, depth+1)
+		if !ok {
+			all = false
+			res = append(res, r...)
 		}
 	}
-	return true
+	return all, res
 }
 
 func mentions(a Atom, t *Term) bool {
